@@ -166,7 +166,7 @@ def r3_bounded_copy(ctx):
     cnt = T.origins_of_arg(t, 2)
     okmin = False
     for o in cnt:
-        if o.kind == "call" and o.term.callee == "std::cmp::min":
+        if o.kind == "call" and o.term.callee in ("std::cmp::min", "std::cmp::Ord::min", "core::cmp::min", "core::cmp::Ord::min"):     # min(a, b) / a.min(b)
             a = T.origins_of_arg(o.term, 0) + T.origins_of_arg(o.term, 1)
             has_size = any(x.kind == "param" and x.detail == 3 for x in a)
             has_len = any(x.kind == "call" and x.term.callee in ("core::slice::<impl [T]>::len",) for x in a)
@@ -256,6 +256,71 @@ def r3_bounded_copy(ctx):
     if n < 2:
         out.append(violated("C17.R3", "buffer-param-count", "", "expected the two readlink buffers"))
     return out
+
+
+def _table_lookup_conversion(ctx, tb, vals, want, vn):
+    """The conversion written as a lookup in a constant table:
+    TABLE.iter().find(|(c, _)| *c == given).map(|(_, b)| b).ok_or[_else](InvalidArgument).
+    -> instance, or None when the function is not of this form."""
+    F = ctx.facts
+    T = ctx.tracer
+    finds = list(tb.calls("std::iter::Iterator::find"))
+    oks = list(tb.calls("std::option::Option::<T>::ok_or_else", "std::option::Option::<T>::ok_or"))
+    if len(finds) != 1 or len(oks) != 1:
+        return None
+    find, okc = finds[0], oks[0]
+    # the table: a promoted/named constant array of (value, base) pairs
+    raw = None
+    for o in T.origins_of_arg(find, 0):
+        if o.kind == "call" and (o.term.callee or "").endswith("::iter"):
+            for o2 in T.origins_of_arg(o.term, 0):
+                if o2.kind == "const" and "CProcfsBase" in (o2.op.const.get("ty") or "") and o2.const_bytes() is not None:
+                    raw = decode_bytes(o2.const_bytes())
+        elif o.kind == "const" and "CProcfsBase" in (o.op.const.get("ty") or "") and o.const_bytes() is not None:
+            raw = decode_bytes(o.const_bytes())
+    if raw is None or len(raw) % 16 != 0:
+        return None
+    table = {}
+    for k in range(len(raw) // 16):
+        table[int.from_bytes(raw[16 * k:16 * k + 8], "little")] = raw[16 * k + 8]
+    expect = {vals[n]: vn.index(want[n]) for n in want if n in vals and want[n] in vn}
+    # the predicate compares the table key with the value being converted; the result is find -> map -> ok_or -> return
+    pred_ok = False
+    for a in T.origins_of_arg(find, 1):
+        if a.kind == "agg" and a.detail and a.detail.startswith("closure ") and F.has(a.detail[8:]):
+            cb = F.body(a.detail[8:])
+            cmp_calls = list(cb.calls("std::cmp::PartialEq::eq"))
+            cmp_stmts = [s_ for bl in cb.blocks for s_ in bl.stmts if s_.kind == "assign" and s_.rv["k"] == "bin" and s_.rv["op"] == "Eq"]
+            ro = T.return_origins(cb)
+            pred_ok = (len(cmp_calls) + len(cmp_stmts)) == 1 and bool(ro) and not any(
+                o.kind == "expr" and o.stmt is not None and o.stmt.rv.get("k") == "un" for o in ro)
+    inv = False
+    for a2 in T.origins_of_arg(okc, 1):
+        if a2.kind == "agg" and a2.detail and a2.detail.startswith("closure ") and F.has(a2.detail[8:]):
+            cb2 = F.body(a2.detail[8:])
+            inv = any(s_.kind == "assign" and s_.rv["k"] == "agg" and s_.rv.get("variant") == "InvalidArgument" for bl in cb2.blocks for s_ in bl.stmts)
+        if a2.kind == "agg" and a2.detail == "error::ErrorImpl::InvalidArgument":
+            inv = True
+
+    def chain(os_, depth=0):
+        if not os_ or depth > 4:
+            return False
+        for o in os_:
+            if o.kind == "call" and o.term is find:
+                continue
+            if o.kind == "call" and (o.term.callee or "").rsplit("::", 1)[-1] in ("map", "copied", "cloned", "ok_or_else", "ok_or") and chain(T.origins_of_arg(o.term, 0), depth + 1):
+                continue
+            return False
+        return True
+
+    ret_ok = chain(T.return_origins(tb)) and chain(T.origins_of_arg(okc, 0))
+    # no ProcfsBase is made up outside the table
+    made = any(s_.kind == "assign" and s_.rv["k"] == "agg" and s_.rv.get("adt") == "procfs::ProcfsBase" for bl in tb.blocks for s_ in bl.stmts)
+    if table == expect and len(expect) == 3 and pred_ok and inv and ret_ok and not made:
+        return holds("C17.R4", "CProcfsBase:conversion", tb.where(), "lookup in a constant table of the 3 known values; anything else -> find() is None -> InvalidArgument")
+    return violated("C17.R4", "CProcfsBase:conversion", tb.where(),
+                    "procfs base conversion table broken (table %s, expected %s, predicate-is-equality=%s, miss->InvalidArgument=%s, result-is-the-lookup=%s)"
+                    % ({hex(k): v for k, v in table.items()}, {hex(k): v for k, v in expect.items()}, pred_ok, inv, ret_ok))
 
 
 def r4_no_rust_enums(ctx):
@@ -362,7 +427,11 @@ def r4_no_rust_enums(ctx):
         else:
             out.append(violated("C17.R4", "CProcfsBase:conversion", tb.where(), "procfs base conversion table broken (known=%s, wildcard->InvalidArgument=%s)" % (vals, other_ok)))
     else:
-        out.append(unproven("C17.R4", "CProcfsBase:conversion", tb.where(), "no value-keyed branch found in the conversion"))
+        tbl = _table_lookup_conversion(ctx, tb, vals, want, vn)
+        if tbl is not None:
+            out.append(tbl)
+        else:
+            out.append(unproven("C17.R4", "CProcfsBase:conversion", tb.where(), "no value-keyed branch found in the conversion"))
     # every CProcfsBase parameter goes through try_into
     for ex in _externs(ctx):
         b = F.body(ex["path"])
